@@ -783,6 +783,8 @@ class Terms:
         if k == "ref":
             return self.place(rv["place"], st)
         if k == "rawptr":
+            if rv.get("kind") == "FakeForPtrMetadata":
+                return self.place(rv["place"], st)
             return ("rawptr", self.place(rv["place"], st))
         if k == "cast":
             x = self.operand(rv["op"], st)
